@@ -33,6 +33,7 @@ from path import Path
 from .asyncio import iter_until_stopped, wait_for_any_event
 from .enums import Change, HashUpdateCause
 from .executor import Executor
+from .file import File
 from .hash_queue import HashQueue, gather_hashes
 from .reporter import ReporterClient
 from .sqlite3 import DBSession
@@ -196,7 +197,14 @@ class Watcher:
         # Feed all updates to the workflow and clean up.
         self.busy_watching.clear()
         async with self.db:
-            old_hashes = self.workflow.get_file_hashes(self.updated | self.deleted)
+            # Only attached file nodes are rehashed, like `startup.rescan_files` does.
+            # A detached node at a path that is relevant through a glob pattern
+            # (e.g. an UNDECLARED input) has no EXTERNAL transition.
+            old_hashes = self.workflow.get_file_hashes(
+                path
+                for path in self.updated | self.deleted
+                if self.workflow.find_attached(File, path) is not None
+            )
 
         # Hashing runs outside any held transaction.
         # Each hash job applies its own result in its own short transaction,
